@@ -1201,11 +1201,11 @@ impl World {
                 break;
             }
         }
-        if by != 1 && !pre.is_voter {
+        if !pre.is_voter {
             ctx.v(
                 "C09",
                 "non-voter started an election",
-                format!("node {} is not a voter of its configuration but campaigned ({})", id, if by == 0 { "timeout" } else { "MsgTimeoutNow" }),
+                format!("node {} is not a voter of its configuration but campaigned ({})", id, match by { 0 => "timeout", 1 => "campaign()", _ => "MsgTimeoutNow" }),
             );
         }
     }
@@ -2071,9 +2071,7 @@ impl World {
         });
         probe("ping", &mut |c| c.ping());
         probe("campaign", &mut |c| {
-            if c.raft.promotable() {
-                let _ = c.campaign();
-            }
+            let _ = c.campaign();
         });
         for to in [me, other, unknown] {
             probe("transfer_leader", &mut |c| c.transfer_leader(to));
